@@ -17,6 +17,9 @@ Definition tiny_len (x : N) : N := match x with N0 => 0 | Npos p => popcount_pos
 Definition HORIZON_NUM_TINYBITSETS : nat := N.to_nat (UNION_HORIZON / UNION_BUCKET_BITS).
 Definition empty_bitsets : list N := repeat 0 HORIZON_NUM_TINYBITSETS.
 
+(* shape of seek_danger as read from the source by tools/pindefs/docset.py *)
+Definition union_guard : bool := N.eqb UNION_DANGER_GUARDS_CURRENT_DOC 1.
+
 Section Union.
   Variable C : impl.
 
@@ -161,9 +164,13 @@ Section Union.
         end
     end.
 
-  (* fn seek_danger *)
-  Definition u_seek_danger (t : N) (s : ustate) : sd_result * ustate :=
+  (* fn seek_danger.  [guard] = the pinned shape of the source: true when the function first answers
+     `target <= self.doc` from the current document (Found if equal, else SeekLowerBound(self.doc));
+     false = the shape before the fix of F131. *)
+  Definition u_seek_danger_g (guard : bool) (t : N) (s : ustate) : sd_result * ustate :=
     if N.leb DOCSET_TERMINATED t then (SdLower DOCSET_TERMINATED, s)
+    else if guard && N.leb t (u_doc s) then
+      (if N.eqb t (u_doc s) then (SdFound, s) else (SdLower (u_doc s), s))
     else if is_in_horizon t s then
       let s' := u_seek t s in
       if N.eqb (u_doc s') t then (SdFound, s') else (SdLower (u_doc s'), s')
@@ -171,6 +178,7 @@ Section Union.
       let '(hit, mn, ds) := children_danger t (u_docsets s) DOCSET_TERMINATED in
       let s1 := upd s ds (u_bitsets s) (u_bucket s) (u_w s) (u_doc s) (u_oof s) in
       if hit then (SdFound, u_seek t s1) else (SdLower mn, s1).
+  Definition u_seek_danger := u_seek_danger_g union_guard.
 
   (* fn fill_buffer, as a tick machine: one tick = one pop_lowest or one bucket step or one refill *)
   Fixpoint fb_loop (fuel : nat) (buf : list N) (count : nat) (s : ustate) : list N * ustate :=
@@ -215,9 +223,10 @@ Section Union.
   Definition u_set_oof (s : ustate) := upd s (u_docsets s) (u_bitsets s) (u_bucket s) (u_w s) (u_doc s) true.
   Definition u_ok (s : ustate) : bool := negb (u_oof s) && forallb (ok C) (u_docsets s).
 
-  Definition union_impl : impl := {|
-    st := ustate; doc := u_doc; advance := u_advance; seek := u_seek; seek_danger := u_seek_danger;
+  Definition union_impl_g (guard : bool) : impl := {|
+    st := ustate; doc := u_doc; advance := u_advance; seek := u_seek; seek_danger := u_seek_danger_g guard;
     fill_buffer := u_fill_buffer;
     fill_bitset := default_fill_bitset u_doc u_advance u_size u_set_oof u_seek;
     count := u_count; size := u_size; ok := u_ok |}.
+  Definition union_impl : impl := union_impl_g union_guard.
 End Union.
